@@ -1,0 +1,43 @@
+//go:build verif
+
+package nsqd
+
+import (
+	"sync"
+	"time"
+)
+
+// Verification hooks (build tag `verif`): a registry of callbacks keyed by point name.
+// A callback may block (to steer an interleaving), count visits, request Exit or kill the
+// process. With no callback registered a point does nothing.
+
+var verifHooks sync.Map // point name -> func(name string)
+
+// verifLookupHeartbeat, when > 0, replaces the hard-coded 15s lookupd heartbeat.
+var verifLookupHeartbeat time.Duration
+
+func verifPoint(name string) {
+	if f, ok := verifHooks.Load(name); ok {
+		f.(func(string))(name)
+	}
+}
+
+// VerifSetHook installs (or, with nil, removes) the callback of a point.
+func VerifSetHook(name string, f func(string)) {
+	if f == nil {
+		verifHooks.Delete(name)
+		return
+	}
+	verifHooks.Store(name, f)
+}
+
+// VerifClearHooks removes every callback.
+func VerifClearHooks() {
+	verifHooks.Range(func(k, _ interface{}) bool {
+		verifHooks.Delete(k)
+		return true
+	})
+}
+
+// VerifSetLookupHeartbeat sets the lookupd heartbeat used by lookupLoop (before Main()).
+func VerifSetLookupHeartbeat(d time.Duration) { verifLookupHeartbeat = d }
